@@ -249,6 +249,8 @@ PROPS["C06"] = {
     "jobs": [
         {"name": "workloads", "pkg": "./c06", "run": "^TestWorkloads$", "rapid": T(600, 6000), "shards": T(4, 16), "replay": "^TestReplay$"},
         {"name": "workloads-race", "pkg": "./c06", "race": True, "run": "^TestWorkloads$", "rapid": T(150, 1500), "shards": T(4, 16)},
+        {"name": "samplers", "pkg": "./c06", "run": "^TestSamplersConcurrent$", "rapid": T(200, 3000), "shards": T(1, 4)},
+        {"name": "samplers-race", "pkg": "./c06", "race": True, "run": "^TestSamplersConcurrent$", "rapid": T(100, 1500), "shards": T(1, 4)},
     ],
     "assumptions": ["event content is deterministic (fixed clock, no caller); settings are the defaults",
                     "real goroutines: only interleavings the Go scheduler produces are seen; yields, sleeps and a gate inside the writer widen the windows; the race detector (race job) reports unsynchronised access without needing the bad interleaving",
